@@ -475,7 +475,7 @@ MUTATORS = ('append', 'extend', 'insert', 'pop', 'clear', 'add', 'remove', 'disc
             'symmetric_difference_update', 'sort', 'reverse', 'appendleft', 'popleft', 'extendleft', 'rotate', 'move_to_end', '__setitem__', '__delitem__', '__ior__', '__iand__', '__isub__')
 
 
-def check_frame(ctx, pool, cl):
+def check_frame(ctx, pool, cl, rule='R7'):
     n = 0
     # methods of Pool whose only call sites are top-level statements of Pool.run (before the closures are defined): part of run's prologue
     run_f = pool.methods['run']
@@ -533,7 +533,7 @@ def check_frame(ctx, pool, cl):
             for attr, kind in hits:
                 n += 1
                 ok = kind in BOOKKEEPING[attr].get(fname, set())
-                ctx.check('R7', f'{fshort}: `{kind}` of self.{attr} is one of the known bookkeeping updates', ok, fshort, f'unexpected-bookkeeping-update:{attr}.{kind}@{fname}',
+                ctx.check(rule, f'{fshort}: `{kind}` of self.{attr} is one of the known bookkeeping updates', ok, fshort, f'unexpected-bookkeeping-update:{attr}.{kind}@{fname}',
                           f'{fshort} mutates the Pool bookkeeping `self.{attr}` ({kind}) outside the update sites the conservation argument covers: inputs can be lost, duplicated or '
                           'handed to dead workers', where=loc(f, node))
     ctx.floor('Pool bookkeeping update sites', n, 18)
